@@ -108,13 +108,17 @@ Section Constructors.
     for_client_error code 400 message.
 
   (* for_client_error_with_status(error_code, status_code):
-       let message = status_code.canonical_reason().unwrap().to_string(); *)
-  Definition for_client_error_with_status (code : option str) (status : N)
-    : res panic http_error :=
+       let message =
+           status_code.canonical_reason().unwrap_or("Client Error").to_string();
+     (not every 4xx code has a standard label, e.g. 444) *)
+  Definition with_status_message (status : N) : str :=
     match canonical_reason status with
-    | Some m => Ok (for_client_error code status m)
-    | None => Err Panic
+    | Some m => m
+    | None => bytes_of "Client Error"
     end.
+
+  Definition for_client_error_with_status (code : option str) (status : N) : http_error :=
+    for_client_error code status (with_status_message status).
 
   (* for_not_found(error_code, internal_message) *)
   Definition for_not_found (code : option str) (internal : str) : res panic http_error :=
